@@ -38,8 +38,46 @@ def nontrivial(r):
     return f.get("orders_distinct", 0) >= 2 and f.get("records", 0) >= 3
 
 
+# several leaves whose contexts carry dict values under one variable: the output is the deep merge of the terminal
+# contexts (engine vs model in lock step; no twin -- two writers of one variable are outside the order-independence claim)
+MERGE_FAM = progs.family(p_pub_dict=0.45, p_dictval=1.0, p_output=1.0, p_publish=0.7, fanout=(1, 3), p_join=0.15,
+                         n_tasks=(3, 7), p_fail=0.05, w_ctrl=0.0, w_rerun=0.0, w_malformed=0.0, p_intermediate=0.0,
+                         steps=(25, 80), w_render=1.0)
+
+
 def run(ctx):
     fam = dict(FAM, tier=ctx["tier"])
+    out = _run(ctx, fam)
+    if ctx["model_ok"]:
+        n = 250 if ctx["tier"] == "quick" else 3000
+        base = (ctx["seed"] * 5393 + 31) % (2 ** 31)
+
+        cfg = {"fam": MERGE_FAM, "project": common.project_full, "monitor": None, "features": None,
+               "gen": gen_merge, "history": progs.run_history, "known_ids": []}
+        res = common.run_cases([base + i for i in range(n)], True, cfg)
+        out["merged_output_cases"] = len(res)
+        out["traces_validated"] = out.get("traces_validated", 0) + sum(r.get("calls", 0) for r in res)
+        divs = [r for r in res if "divergence" in r]
+        errs = [r for r in res if "error" in r]
+        if errs:
+            out["violations"].append({"property": "C08", "what": "harness error in the merged-output batch",
+                                      "error": errs[0]["error"][-600:], "seed": errs[0]["seed"]})
+        if divs and not out.get("correspondence_broken"):
+            d = divs[0]
+            out["correspondence_broken"] = {"cases_diverging": len(divs), "first": {
+                "seed": d["seed"], "definition": d["definition"], "inputs": d["inputs"], "ops": d["ops"],
+                "divergence": d["divergence"]}}
+    return out
+
+
+def gen_merge(rng, f):
+    d, inputs = progs.gen_definition(rng, f)
+    if "output" in d and not any("odv" in o for o in d["output"]):
+        d["output"].append({"odv": d["output"][0]["ox"].replace("ctx().x", "ctx().dv")})
+    return d, inputs
+
+
+def _run(ctx, fam):
     return common.conductor_run(
         ctx, "C08", fam, common.project_full, monitors.c08, features, nontrivial, 150, 1200,
         rule="acyclic generated definitions with single-writer publishes and per-task outcomes; each scenario is "
